@@ -82,8 +82,9 @@ def write_evidence(mod, ctx, prop, tier, seed, wall, violations, known_lines):
         "wall_s": round(wall, 2),
         "violations": violations,
     }
-    os.makedirs(os.path.join(HERE, "evidence"), exist_ok=True)
-    path = os.path.join(HERE, "evidence", f"{prop}.json")
+    evdir = os.environ.get("VERIF_EVIDENCE_DIR") or os.path.join(HERE, "evidence")
+    os.makedirs(evdir, exist_ok=True)
+    path = os.path.join(evdir, f"{prop}.json")
     tmp = path + ".tmp"
     with open(tmp, "w", encoding="utf8") as fh:
         json.dump(ev, fh, indent=1, ensure_ascii=False, default=str)
@@ -146,7 +147,7 @@ def main(argv):
         violations = 0
         lines = []
         if ctx.buckets:
-            outdir = os.path.join(HERE, "replays", prop, "found")
+            outdir = os.path.join(HERE, "replays", prop, "found")  # git-ignored scratch, next to the corpus
             os.makedirs(outdir, exist_ok=True)
             for b, info in sorted(ctx.buckets.items()):
                 f = info["cases"][0]
